@@ -14,7 +14,7 @@
                    return bytes[index+4:end:end], end
    The model walks `rest` = bytes[index:] instead of carrying the index. *)
 From Coq Require Import List NArith Bool.
-From MV Require Import Lib.Bytes Lib.Dec.
+From MV Require Import Lib.Bytes Lib.Dec Model.CodecParams.
 Import ListNotations.
 Open Scope N_scope.
 
@@ -22,11 +22,22 @@ Definition kv := (bytes * bytes)%type.
 
 Inductive sres := SOk (s : bytes) (rest : bytes) | SInvalid (rest : bytes) | SErr | SPanic.
 
-Definition decode_str (chk : bool) (rest : bytes) : sres :=
+(* `rest` = bytes[index:], `idx` = index.  The test "the string ends inside the block":
+     w32 = false   end := index + 4 + int(length); if end > totalLen      (int: 64 bits here; no wrap for a 32-bit length)
+     w32 = true    end := uint32(index) + 4 + length; if end > uint32(totalLen)   (the sum WRAPS for length >= 2^32-4-index;
+                   the wrapped end passes the test and bytes[index+4:end:end] panics)
+   which of the two the code has is read from the source (Gen/CodecSrc.v hdr_end_u32). *)
+Definition decode_str (chk w32 : bool) (idx : N) (rest : bytes) : sres :=
   match rest with
   | a :: b :: c :: d :: r =>
       let l := be_decw [a; b; c; d] in
       if l =? 4294967295 then SInvalid r
+      else if w32 then
+        let total := idx + blen rest in
+        let e := (idx + 4 + l) mod 4294967296 in
+        if total mod 4294967296 <? e then SErr
+        else if e <? idx + 4 then SPanic
+        else SOk (takeN (e - (idx + 4)) r) (dropN (e - (idx + 4)) r)
       else if blen r <? l then SErr
       else SOk (takeN l r) (dropN l r)
   | _ => if chk then SErr else SPanic
@@ -34,29 +45,35 @@ Definition decode_str (chk : bool) (rest : bytes) : sres :=
 
 Inductive hres := HOk | HErr | HPanic | HFuel.
 
-Fixpoint hdr_loop (chk : bool) (fuel : nat) (rest : bytes) (acc : list kv) : hres * list kv :=
+(* the index is only needed (and only computed) for the uint32 form *)
+Definition next_idx (w32 : bool) (idx : N) (rest r : bytes) : N := if w32 then idx + (blen rest - blen r) else 0.
+
+Fixpoint hdr_loop (chk w32 : bool) (fuel : nat) (idx : N) (rest : bytes) (acc : list kv) : hres * list kv :=
   match rest with
   | [] => (HOk, acc)
   | _ :: _ =>
     match fuel with
     | O => (HFuel, acc)
     | S k =>
-      match decode_str chk rest with
+      match decode_str chk w32 idx rest with
       | SPanic => (HPanic, acc)
       | SErr => (HErr, acc)
-      | SInvalid r => hdr_loop chk k r acc
+      | SInvalid r => hdr_loop chk w32 k (next_idx w32 idx rest r) r acc
       | SOk key r =>
-        match decode_str chk r with
+        let i1 := next_idx w32 idx rest r in
+        match decode_str chk w32 i1 r with
         | SPanic => (HPanic, acc)
         | SErr => (HErr, acc)
-        | SInvalid r' => hdr_loop chk k r' acc
-        | SOk val r' => hdr_loop chk k r' (acc ++ [(key, val)])
+        | SInvalid r' => hdr_loop chk w32 k (next_idx w32 i1 r r') r' acc
+        | SOk val r' => hdr_loop chk w32 k (next_idx w32 i1 r r') r' (acc ++ [(key, val)])
         end
       end
     end
   end.
 
-Definition hdr_decode (chk : bool) (h : bytes) : hres * list kv := hdr_loop chk (S (length h)) h [].
+Definition hdr_decode_sw (chk w32 : bool) (h : bytes) : hres * list kv := hdr_loop chk w32 (S (length h)) 0 h [].
+(* with the end test of the code in the tree (expected: int arithmetic) *)
+Definition hdr_decode (chk : bool) (h : bytes) : hres * list kv := hdr_decode_sw chk hdr_end_u32 h.
 
 (* EncodeHeader: uint32(len) big endian, then the bytes, for key and value of every pair *)
 Definition enc_str (s : bytes) : bytes := be_enc 4 (blen s) ++ s.
